@@ -22,7 +22,7 @@ BIG = 10**12
 GAP_TYPES = ["scaffold", "contig", "centromere", "short_arm", "heterochromatin", "telomere", "repeat", "contamination"]
 FRAG_NAMES = ["c1", "a:b", "x-1:2-3", "p q r"]
 COORDS = [(1, 1), (1, 5), (5, BIG)]
-TAGSETS = [(), ("Painted",), ("Painted", "X")]
+TAGSETS = [(), ("Painted",), ("Painted", "X"), ("Painted", "W", "Haplotig", "Unloc", "Hap1", "Cut")]
 
 FULL = [("F", n, s, e, st, t) for n in FRAG_NAMES for s, e in COORDS for st in (1, -1, 0) for t in TAGSETS] + [
     ("G", ln, gt) for ln in (1, 200, BIG) for gt in GAP_TYPES
@@ -33,6 +33,7 @@ REDUCED = [
     ("F", "x-1:2-3", 1, 1, 0, ("Painted", "X")),
     ("F", "c1", 1, 1, -1, ()),
     ("F", " p q", 2, 3, 1, ()),
+    ("F", "c1", 6, 9, 1, ("Painted", "W", "Haplotig", "Unloc", "Hap1", "Cut", "Singleton")),
     ("G", 200, "scaffold"),
     ("G", 200, "contig"),
     ("G", 1, "centromere"),
@@ -340,7 +341,34 @@ class C05(Check):
                     for p in (src, dst, d / "out.tpf"):
                         if p.exists():
                             os.unlink(p)
-            ctx.sample({"cli": "asm-format stdin/file, AGP<->TPF", "rows": [list(r) for r in REDUCED[:2]]})
+            # several input files into one output file: every input's rows must arrive, in order
+            if part == 0:
+                for k in (2, 3):
+                    for rows_sets in itertools.product([[REDUCED[0]], [REDUCED[0], REDUCED[5], REDUCED[3]], [REDUCED[3], REDUCED[4], REDUCED[0]]], repeat=k):
+                        texts = []
+                        paths = []
+                        for i, rows in enumerate(rows_sets):
+                            t = fmt(build([(f"s{i + 1}", list(rows))], ()), "AGP")
+                            pth = d / f"in{i}.agp"
+                            pth.write_text(t)
+                            texts.append(t)
+                            paths.append(str(pth))
+                        case = ["cli-multi", [[list(r) for r in rows] for rows in rows_sets]]
+                        ctx.cur = case
+                        ctx.evaluations += 1
+                        ctx.nontrivial += 1
+                        dst = d / "multi.agp"
+                        r = runner.invoke(cli, [*paths, "-o", str(dst)])
+                        if r.exit_code != 0 or dst.read_text() != "".join(texts):
+                            ctx.violation("cli-several-inputs-one-output", case, f"exit {r.exit_code}: {dst.read_text()[:300] if dst.exists() else None!r}")
+                        r = runner.invoke(cli, [*paths])
+                        if r.exit_code != 0 or r.stdout != "".join(texts):
+                            ctx.violation("cli-several-inputs-stdout", case, f"exit {r.exit_code}")
+                        for pth in paths:
+                            os.unlink(pth)
+                        if dst.exists():
+                            os.unlink(dst)
+            ctx.sample({"cli": "asm-format stdin/file, AGP<->TPF, several inputs", "rows": [list(r) for r in REDUCED[:2]]})
         finally:
             shutil.rmtree(d, ignore_errors=True)
 
@@ -415,7 +443,7 @@ class C05(Check):
             lines = text.splitlines()
             t2 = "\n".join(lines[:li] + [bad] + lines[li + 1 :]) + "\n"
             self.one_corruption(t2, fkind, len(data_lines(text)), case, ctx)
-        elif kind == "cli":
+        elif kind in ("cli", "cli-multi"):
             self.check_cli_one = None
             # re-run the whole CLI part that contains the case (cheap)
             for part in range(4):
